@@ -219,3 +219,116 @@ def lower_camel(name):
         else:
             out.append(ch)
     return "".join(out)
+
+
+# -- http-ref: reconstruct the request from what went over HTTP -----------------
+
+class HttpRefError(Exception):
+    def __init__(self, clause, detail):
+        super().__init__(f"{clause}: {detail}")
+        self.clause, self.detail = clause, detail
+
+
+def template_regex(template):
+    """Regex for a google.api.http path template (reference implementation:
+    '*' one segment, '**' any remainder, literals exact, verb suffix literal)."""
+    out, pos = [], 0
+    for m in _VAR.finditer(template):
+        out.append(re.escape(template[pos:m.start()]))
+        pat = m.group(2) or "*"
+        segs = []
+        for s in pat.split("/"):
+            segs.append("[^/]+" if s == "*" else (".*" if s == "**" else re.escape(s)))
+        out.append("(?P<v%d>%s)" % (len([x for x in out if x.startswith("(?P<")]), "/".join(segs)))
+        pos = m.end()
+    out.append(re.escape(template[pos:]))
+    lit = "".join(out).replace(re.escape("*"), "[^/]+")
+    return re.compile("^" + lit + "$")
+
+
+def match_binding(template, path):
+    m = template_regex(template).match(path)
+    if not m:
+        return None
+    names = [v for v, _ in path_vars(template)]
+    return {n: m.group("v%d" % i) for i, n in enumerate(names)}
+
+
+def choose_binding(bindings, msg):
+    """Index of the first binding whose variables are all set (truthy) and
+    match their templates, with the expanded path; None if none matches."""
+    for i, (verb, tmpl, body) in enumerate(bindings):
+        p = expand_path(tmpl, msg)
+        if p is None:
+            continue
+        vals = [get_path(msg, f) for f, _ in path_vars(tmpl)]
+        if not all(vals):
+            continue
+        return i, p
+    return None
+
+
+def _field_by_segment(desc, seg):
+    for f in desc.fields:
+        if f.name == seg or f.json_name == seg:
+            return f
+    return None
+
+
+def query_to_message(model, req_type, pairs):
+    """parse_qsl pairs -> message, type-directed by the input descriptors."""
+    from google.protobuf import json_format
+    desc = model.desc(req_type)
+    tree = {}
+    for key, val in pairs:
+        cur_d, cur_t = desc, tree
+        segs = key.split(".")
+        for i, seg in enumerate(segs):
+            f = _field_by_segment(cur_d, seg)
+            if f is None:
+                raise HttpRefError("query-key-unknown", f"{key!r}: segment {seg!r} is neither a proto field name nor its lowerCamel form in {cur_d.full_name}")
+            last = i == len(segs) - 1
+            if not last:
+                if f.type != FD.TYPE_MESSAGE or f.label == FD.LABEL_REPEATED:
+                    raise HttpRefError("query-key-unknown", f"{key!r}: {seg!r} is not a singular message")
+                cur_t = cur_t.setdefault(f.name, {})
+                if not isinstance(cur_t, dict):
+                    raise HttpRefError("query-key-conflict", key)
+                cur_d = f.message_type
+            else:
+                v = val
+                leaf_t = f.type
+                if f.type == FD.TYPE_MESSAGE:
+                    n = f.message_type.full_name
+                    if n == "google.protobuf.BoolValue":
+                        leaf_t = FD.TYPE_BOOL
+                    elif not n.startswith("google.protobuf."):
+                        raise HttpRefError("query-key-unknown", f"{key!r}: message-typed leaf {n}")
+                if leaf_t == FD.TYPE_BOOL:
+                    if val not in ("true", "false"):
+                        raise HttpRefError("query-value", f"{key}={val!r}: boolean must be true/false")
+                    v = val == "true"
+                if f.label == FD.LABEL_REPEATED:
+                    cur_t.setdefault(f.name, []).append(v)
+                else:
+                    if f.name in cur_t:
+                        raise HttpRefError("query-key-duplicate", key)
+                    cur_t[f.name] = v
+    m = model.new(req_type)
+    try:
+        json_format.ParseDict(tree, m)
+    except Exception as e:  # noqa
+        raise HttpRefError("query-value", f"{type(e).__name__}: {e}")
+    return m, tree
+
+
+def leaves(msg, prefix=""):
+    """Set of dotted leaf paths that are set in msg (maps/repeated count as one leaf)."""
+    out = set()
+    for fd, v in msg.ListFields():
+        p = prefix + fd.name
+        if fd.type == FD.TYPE_MESSAGE and fd.label != FD.LABEL_REPEATED and not fd.message_type.full_name.startswith("google.protobuf."):
+            out |= leaves(v, p + ".")   # an empty sub-message carries no leaf
+        else:
+            out.add(p)
+    return out
